@@ -958,7 +958,12 @@ class reg(exp):
 
     def eval(self, env):
         r = env[self]
-        r.sf = self.sf
+        if r.sf != self.sf:
+            # the mapped value is read with this register's signedness, but the
+            # object held by the map (possibly shared) must keep its own flag:
+            from copy import copy
+            r = copy(r)
+            r.sf = self.sf
         return r
 
     def addr(self, env):
